@@ -21,6 +21,7 @@ func runLineSearch(t *testing.T, r *h.Run, view string, stepLevel bool) {
 	if r.Thorough() {
 		caps = bfsCaps{G: 3, F: 2, K: 3}
 	}
+	r.Set("implementation_side", implScannerKind)
 	r.Set("caps", fmt.Sprintf("G=%d goroutines, F=%d frames per stack, K=%d race creation sections", caps.G, caps.F, caps.K))
 	frontierEmpty := true
 	for _, crlf := range []bool{false, true} {
